@@ -467,10 +467,11 @@ class BehavioralRTLIRTypeCheckVisitorL1( bir.BehavioralRTLIRNodeVisitor ):
   def _get_nbits_from_value( s, value ):
     if -1 <= value <= 1:
       return 1
+    # exact integer arithmetic: float log2 is off by one from 2**49 on
     if value < 0:
-      return math.ceil(math.log2(abs(value)))
+      return ( abs(value) - 1 ).bit_length()
     else:
-      return math.ceil(math.log2(value+1))
+      return value.bit_length()
 
 #-------------------------------------------------------------------------
 # Enforce types for all terms whose types are inferred (implicit)
